@@ -17,12 +17,13 @@ git -C "$WT" apply "$SD/patch.diff" || { echo "RESULT apply-failed"; exit 1; }
 ( cd "$WT/v8" && go build ./... ) || { echo "RESULT nocompile"; git -C "$WT" checkout -- .; exit 1; }
 suite=$( cd "$WT/v8" && go test -vet=off -count=1 ./... 2>&1 | grep -v "no test files" | grep -v "^ok" | head -5 )
 if [ -n "$suite" ]; then echo "suite output: $suite"; fi
+made=""; [ -d "$WT/$pkgdir" ] || { mkdir -p "$WT/$pkgdir"; made=1; }
 cp "$demo" "$WT/$pkgdir/zz_seed_demo_test.go"
 RACE=""; grep -qs -- "-race" "$SD/notes.md" "$demo" && RACE="-race"   # demonstrations of data races need the race detector
 with=$( cd "$WT/$pkgdir" && go test $RACE -vet=off -count=1 -run 'Seed|seed|ZZ|Zz' . 2>&1 | tail -3 | tr '\n' ' ' )
 git -C "$WT" apply -R "$SD/patch.diff"
 without=$( cd "$WT/$pkgdir" && go test $RACE -vet=off -count=1 -run 'Seed|seed|ZZ|Zz' . 2>&1 | tail -3 | tr '\n' ' ' )
-rm -f "$WT/$pkgdir/zz_seed_demo_test.go"
+rm -f "$WT/$pkgdir/zz_seed_demo_test.go"; [ -n "$made" ] && rmdir "$WT/$pkgdir" 2>/dev/null
 echo "suite_with_change: $( [ -z "$suite" ] && echo pass || echo FAIL )"
 echo "demo_with_change: $with"
 echo "demo_without: $without"
